@@ -923,6 +923,22 @@ pub fn session(rng: &mut Rng, opts: Opts, with_failures: bool) -> Session {
         };
         forms.push(f);
     }
+    // (failures are injected before the wrapper forms below are inserted: a wrapper stays installed in a
+    // long-lived VM, and a call of a session-local procedure inside it would recurse through later sessions)
+    if with_failures {
+        // inject one failing expression into one of the later forms
+        let idx = g.rng.usize(forms.len());
+        let total = count_literals(&forms[idx], false);
+        if total > 0 {
+            let kind = g.rng.usize(6);
+            let (bad, name) = g.failing(kind);
+            let mut k = g.rng.below(total as u64) as i64;
+            forms[idx] = replace_nth_literal(&forms[idx], &mut k, &bad, false);
+            g.tag(&format!("failure:{}", name));
+        }
+        // and keep evaluating afterwards
+        forms.push(g.expr_form());
+    }
     // Late binding of globals: one session in five rebinds a built-in, after some code that calls it was
     // compiled, to a wrapper that counts its calls; the count is reported by the last form.
     let rebind = !g.opts.no_global_effects && g.rng.chance(1, 5);
@@ -939,20 +955,6 @@ pub fn session(rng: &mut Rng, opts: Opts, with_failures: bool) -> Session {
             forms.insert((at + k).min(forms.len()), w);
         }
         g.tag("built-in-rebound-after-use");
-    }
-    if with_failures {
-        // inject one failing expression into one of the later forms
-        let idx = g.rng.usize(forms.len());
-        let total = count_literals(&forms[idx], false);
-        if total > 0 {
-            let kind = g.rng.usize(6);
-            let (bad, name) = g.failing(kind);
-            let mut k = g.rng.below(total as u64) as i64;
-            forms[idx] = replace_nth_literal(&forms[idx], &mut k, &bad, false);
-            g.tag(&format!("failure:{}", name));
-        }
-        // and keep evaluating afterwards
-        forms.push(g.expr_form());
     }
     if rebind {
         forms.push(sym("wrapcnt"));
